@@ -7,10 +7,8 @@
 // lines removed (chibicc.h has no include guard); nothing else is changed, so `static` functions are
 // reachable here.
 //
-// build: gcc -O1 -g -w -fsanitize=address,undefined -fno-sanitize=shift-base -fno-sanitize-recover=all
+// build: gcc -O1 -g -w -fsanitize=address,undefined -fno-sanitize-recover=all
 //            -I<snapshot> -I<scratch> literals_harness.c -o literals_harness
-//   (shift-base: `(c << 4)` in read_escaped_char overflows `int` for escapes such as U"\xffffffff";
-//    every compiler chibicc is built with wraps, and so does the model.)
 #include "chibicc.h"
 #include <setjmp.h>
 
